@@ -540,7 +540,12 @@ func runBounded(prop string) ([]map[string]interface{}, int) {
 			fmt.Sscanf(text[k+len("BOUNDED-CASES "):], "%d", &cases)
 		}
 		status := "passed"
-		if err != nil || !strings.Contains(text, "--- PASS: "+it.Run) {
+		if strings.Contains(text, "[build failed]") && !strings.Contains(text, "--- FAIL") {
+			// the harness no longer compiles against the tree (an API it uses changed): that decides nothing about the
+			// property - it is reported, not raised as a violation
+			status = "NOT-RUN (harness does not build against this tree)"
+			fmt.Printf("NOTE: bounded stand-in %s does not build against this tree; it decided nothing (%s)\n", it.Run, filepath.Join(verifDir, "bounded", it.File))
+		} else if err != nil || !strings.Contains(text, "--- PASS: "+it.Run) {
 			status = "FAILED"
 			failed++
 			replay := filepath.Join(verifDir, "replays", prop, "bounded_"+it.Run+".txt")
